@@ -109,17 +109,19 @@ func generate(rng *rand.Rand, prop, tier string) *Scenario {
 	if thorough {
 		nops = 8 + rng.IntN(50)
 	}
-	kinds := []string{"add", "del", "get", "delpod", "recreate", "exit", "sleep", "drift", "gc", "barrier"}
-	weights := []int{40, 20, 5, 6, 4, 2, 8, 3, 3, 4}
+	kinds := []string{"add", "del", "get", "delpod", "recreate", "exit", "sleep", "drift", "gc", "barrier", "drift-eni"}
+	weights := []int{40, 20, 5, 6, 4, 2, 8, 3, 3, 4, 1}
 	switch prop {
 	case "C07":
-		weights = []int{45, 20, 2, 4, 3, 1, 8, 0, 1, 4}
+		weights = []int{45, 20, 2, 4, 3, 1, 8, 0, 1, 4, 0}
 	case "C09":
-		weights = []int{35, 12, 2, 16, 6, 5, 10, 2, 8, 4}
+		weights = []int{35, 12, 2, 16, 6, 5, 10, 2, 8, 4, 4}
 	case "C06":
-		weights = []int{45, 22, 2, 4, 3, 1, 14, 2, 1, 4}
+		weights = []int{45, 22, 2, 4, 3, 1, 14, 2, 1, 4, 0}
 	case "C04":
-		weights = []int{40, 28, 10, 4, 4, 1, 5, 1, 2, 4}
+		weights = []int{40, 28, 10, 4, 4, 1, 5, 1, 2, 4, 0}
+	case "C05":
+		weights = []int{40, 20, 5, 6, 4, 2, 8, 0, 3, 4, 0}
 	}
 	for i := 0; i < nops; i++ {
 		op := Op{Kind: pickW(rng, kinds, weights), Pod: rng.IntN(npods)}
@@ -135,7 +137,7 @@ func generate(rng *rand.Rand, prop, tier string) *Scenario {
 			op.SB = pickWInt(rng, []int{0, 1, 2}, []int{70, 25, 5})
 		case "sleep":
 			op.SleepS = oneOf(rng, 1, 5, 30, 120, 400, 900)
-		case "drift":
+		case "drift", "drift-eni":
 			op.ENI, op.IP = rng.IntN(4), rng.IntN(10)
 		}
 		sc.Ops = append(sc.Ops, op)
@@ -165,7 +167,7 @@ func generate(rng *rand.Rand, prop, tier string) *Scenario {
 		sc.SettleS = oneOf(rng, 0, 30, 400)
 		ops := sc.Ops[:0]
 		for _, op := range sc.Ops {
-			if op.Kind != "drift" {
+			if op.Kind != "drift" && op.Kind != "drift-eni" {
 				ops = append(ops, op)
 			}
 		}
